@@ -437,6 +437,17 @@ fn put_bits(bytes: &mut [u8], big: bool, off: usize, len: usize, v: u64) {
 /// `types`: candidate source types (the target type and its descendants): the encoding of a
 /// value of any of them is a meaningful input for the target's decoder.
 pub fn gen_bytes(r: &Ref, types: &[String], static_hint: usize, s: &mut Src) -> ByteInput {
+    r.es_padded.set(false);
+    let mut b = gen_bytes_inner(r, types, static_hint, s);
+    if r.es_padded.get() {
+        // not a single-fault input any more
+        b.single_fault = false;
+        b.label = format!("espad+{}", b.label);
+    }
+    b
+}
+
+fn gen_bytes_inner(r: &Ref, types: &[String], static_hint: usize, s: &mut Src) -> ByteInput {
     let class = s.weighted(&[10, 18, 8, 34, 6, 14, 10]);
     if class == 5 {
         let n = match s.below(4) {
@@ -456,7 +467,15 @@ pub fn gen_bytes(r: &Ref, types: &[String], static_hint: usize, s: &mut Src) -> 
         return ByteInput { bytes, label: "random".into(), single_fault: false };
     }
     let ty = s.pick(types).clone();
-    let Some((_, enc)) = gen_encodable(r, &ty, s) else {
+    // one valid encoding in eight of a type reaching an element-size array gets elements shorter than their
+    // window (window and element-size field grown by 1..3 octets)
+    let padded = s.below(8) == 0;
+    if padded {
+        r.es_pad.set(1 + s.below(3));
+    }
+    let got = gen_encodable(r, &ty, s);
+    r.es_pad.set(0);
+    let Some((_, enc)) = got else {
         return ByteInput { bytes: vec![], label: "random".into(), single_fault: false };
     };
     let e = enc.bytes;
